@@ -19,6 +19,9 @@ fn registry() -> Vec<(&'static str, RunFn, ReplayFn, u64)> {
         ("C02", props::c02::run, props::c02::replay, 7200),
         ("C03", props::c03::run, props::c03::replay, 7200),
         ("C04", props::c04::run, props::c04::replay, 7200),
+        ("C05", props::c05::run, props::c05::replay, 7200),
+        ("C06", props::c06::run, props::c06::replay, 7200),
+        ("C07", props::c07::run, props::c07::replay, 7200),
     ]
 }
 
@@ -38,6 +41,7 @@ fn main() {
         .and_then(|s| s.parse().ok())
         .unwrap_or_else(|| std::thread::available_parallelism().map(|n| n.get()).unwrap_or(8).min(16));
     match args[1].as_str() {
+        "c07-child" => props::c07::child_main(&args[2..]),
         "refcheck" => match refcheck::validate_reference() {
             Ok(n) => println!("reference model reproduces all fixtures ({} items)", n),
             Err(e) => {
